@@ -69,6 +69,10 @@ def run(ctx: Ctx):
     ctx.guarded(deciding_entry, ctx)
     res.rule("DIV-GUARDED", "in the SVD methods listed in SVD_FUNS and in make_svd_non_negative every division has a denominator that is strictly positive: by construction (a value clipped / floored at a positive constant or machine epsilon, its square root, reshapes of it) or because the division sits under `if P > Q` where the denominator is a factor of the product P of norms and Q >= 0: singular vectors / NNDSVD columns obtained by dividing by computed singular values or norms stay finite for exactly singular input and one-signed singular vectors", floor=6)
     ctx.guarded(div_guarded, ctx)
+    res.rule("SCALE-RETURNED", "symeig_svd obtains the second set of singular vectors by dividing A^T U (or A V) by the singular values: the divisor is the very value that is returned as S (same reaching definition), so that U diag(S) V reproduces the matrix also where the floor at machine epsilon is active; returning sqrt(clip(e, 0)) while dividing by sqrt(clip(e, eps)) scales those components by sigma / sqrt(eps)", floor=2)
+    ctx.guarded(scale_returned, ctx)
+    res.rule("REORTH-EACH-STEP", "randomized_range_finder: every product with A or A^H inside the power iteration is followed by an orthonormalisation before the next product (the sample handed from one pass of the loop to the next comes out of qr): without it the sample collapses onto the dominant singular directions in floating point and the small singular values of the sketch are lost", floor=1)
+    ctx.guarded(reorth_each_step, ctx)
     res.rule("BRANCH-AGREE", "randomized_svd: its two routes (transposed and direct) are the same algorithm on A^T and A; every routine called on both routes (range finder, reduced SVD) gets the same options on both -- sketch size with oversampling, power iterations, seed, number of singular triplets -- only the matrix operand differs", floor=2)
     ctx.guarded(branch_agree, ctx)
     res.rule("NONNEG-OPTION", "sign analysis ({non-negative, any} abstract interpretation, the domain of C10): for arbitrary (signed) data and arbitrary singular vectors, make_svd_non_negative returns two entrywise non-negative factors under each of its variants, and svd_interface with the non-negative option returns exactly those", floor=4)
@@ -510,6 +514,165 @@ def div_guarded(ctx: Ctx):
                     ctx.finding("DIV-GUARDED", f, den, f"{f.name} divides by `{src(den)[:60]}` = `{src(full)[:100]}`, which is not bounded away from zero: for an exactly singular input (a zero eigenvalue / singular value) the quotient is 0/0 or x/0 and the returned singular vectors contain NaN / inf instead of an orthonormal completion", construct=f"{f.name}: / {src(den)[:50]} unguarded")
     if n == 0:
         raise AnalysisError("DIV-GUARDED: no division left in the SVD methods; the rule has nothing to decide (re-read symeig_svd)")
+
+
+# ---------------------------------------------------------------------------------
+# SCALE-RETURNED: the singular values that divide are the singular values that are returned
+# ---------------------------------------------------------------------------------
+def scale_returned(ctx: Ctx):
+    from ..inline import with_inlined
+    from .state import _resolve_at
+
+    res = ctx.res
+    f = with_inlined(ctx.repo, ctx.repo.func(S + "symeig_svd"), kinds=("nested",))
+    rets = [r for r in own_scope_nodes(f.node) if isinstance(r, ast.Return) and isinstance(r.value, ast.Tuple) and len(r.value.elts) == 3]
+    if not rets:
+        raise AnalysisError("SCALE-RETURNED: symeig_svd no longer returns a triple; cannot decide")
+
+    def base_name(e):
+        """the local a returned component is taken from (through slices / flips / reshapes)"""
+        for _ in range(6):
+            if isinstance(e, ast.Subscript):
+                e = e.value
+            elif isinstance(e, ast.Call) and _cn(e) in ("flip", "reshape", "transpose", "copy") and e.args:
+                e = e.args[0]
+            else:
+                break
+        return e.id if isinstance(e, ast.Name) else None
+
+    s_ret = base_name(_resolve_at(rets[0].value.elts[1], rets[0], f.node, depth=1))
+    if s_ret is None:
+        s_ret = base_name(rets[0].value.elts[1])
+    if s_ret is None:
+        raise AnalysisError("SCALE-RETURNED: the singular values returned by symeig_svd are not a local any more; cannot decide")
+    n = 0
+    for st in [x for x in ast.walk(f.node) if isinstance(x, ast.stmt) and not isinstance(x, (ast.If, ast.For, ast.While, ast.With, ast.Try, ast.FunctionDef))]:
+        for d in ast.walk(st):
+            if not (isinstance(d, ast.BinOp) and isinstance(d.op, ast.Div)):
+                continue
+            den = d.right
+            while isinstance(den, ast.Call) and _cn(den) in ("reshape", "transpose", "copy") and den.args:
+                den = den.args[0]
+            if not isinstance(den, ast.Name):
+                continue
+            # only the divisions that produce singular vectors: numerator mentions eigenvectors / the matrix
+            n += 1
+            got = _resolve_at(den, st, f.node, depth=1)
+            want = _resolve_at(ast.Name(id=s_ret, ctx=ast.Load()), st, f.node, depth=1)
+            ok = den.id == s_ret or ast.dump(got) == ast.dump(want)
+            res.instance("SCALE-RETURNED", f"symeig_svd: / {src(d.right)[:40]}", sample={"divisor": src(got)[:80], "returned_S": src(want)[:80], "ok": ok})
+            if not ok:
+                ctx.finding("SCALE-RETURNED", f, d, f"symeig_svd divides by `{src(d.right)[:50]}` = `{src(got)[:80]}` but returns the singular values `{s_ret}` = `{src(want)[:80]}`: where the two differ (singular values below sqrt(eps)) the component of U diag(S) V is scaled by their ratio, so the decomposition no longer reproduces the matrix (and tensor_train / tensor_ring built on it are not exact at full rank)", construct=f"symeig_svd: divisor {src(got)[:40]} is not the returned S")
+    if n == 0:
+        raise AnalysisError("SCALE-RETURNED: symeig_svd no longer divides by its singular values; cannot decide")
+
+
+# ---------------------------------------------------------------------------------
+# REORTH-EACH-STEP: the power iteration re-orthonormalises between products
+# ---------------------------------------------------------------------------------
+def reorth_each_step(ctx: Ctx):
+    """typestate of the sample along the body of the power-iteration loop: a value is ORTH (it came out of
+    qr) or carries the number of products with A / A^H applied since it last was; a product applied to a
+    value that already carries one, or a value carried to the next pass that is not ORTH, is reported"""
+    from ..inline import with_inlined
+
+    res = ctx.res
+    f = with_inlined(ctx.repo, ctx.repo.func(S + "randomized_range_finder"))
+    loops = [lp for lp in own_scope_nodes(f.node) if isinstance(lp, (ast.For, ast.While)) and any(isinstance(c, ast.Call) and _cn(c) in ("dot", "matmul") for c in ast.walk(lp))]
+    if not loops:
+        raise AnalysisError("REORTH-EACH-STEP: randomized_range_finder has no power-iteration loop with a product any more; cannot decide")
+    ORTH = 0
+    n = 0
+    for lp in loops:
+        written = {x.id for st in lp.body for x in ast.walk(st) if isinstance(x, ast.Name) and isinstance(x.ctx, ast.Store)}
+        env = {}
+        problems = []
+
+        def state(e):
+            """number of products since the last orthonormalisation; None = not a sample (the matrix, options)"""
+            if isinstance(e, ast.Name):
+                if e.id in env:
+                    return env[e.id]
+                return ORTH if e.id in written else None  # a carried name enters the pass orthonormal (checked at the end)
+            if isinstance(e, ast.Subscript):
+                v = e.value
+                if isinstance(v, ast.Call) and _cn(v) == "qr":
+                    state(v.args[0]) if v.args else None
+                    return ORTH
+                if isinstance(v, ast.Name) and env.get(v.id) == "qr-pair":
+                    return ORTH
+                return state(v)
+            if isinstance(e, ast.Call):
+                nm = _cn(e)
+                if nm == "qr":
+                    if e.args:
+                        state(e.args[0])
+                    return "qr-pair"
+                if nm in ("dot", "matmul") and len(e.args) >= 2:
+                    sts = [state(a) for a in e.args[:2]]
+                    k = [x for x in sts if isinstance(x, int)]
+                    if not k:
+                        return None
+                    if max(k) >= 1:
+                        problems.append((e, "a second product is applied to a sample that was not re-orthonormalised after the first"))
+                    return max(k) + 1
+                if e.args:
+                    return state(e.args[0])  # conj / transpose / tensor / copy: same sample
+                return None
+            if isinstance(e, ast.BinOp) and isinstance(e.op, ast.MatMult):
+                sts = [state(e.left), state(e.right)]
+                k = [x for x in sts if isinstance(x, int)]
+                if not k:
+                    return None
+                if max(k) >= 1:
+                    problems.append((e, "a second product is applied to a sample that was not re-orthonormalised after the first"))
+                return max(k) + 1
+            return None
+
+        def run(block):
+            for st in block:
+                if isinstance(st, ast.Assign) and len(st.targets) == 1:
+                    v = state(st.value)
+                    t = st.targets[0]
+                    if isinstance(t, ast.Name):
+                        env[t.id] = v
+                    elif isinstance(t, (ast.Tuple, ast.List)):
+                        if v == "qr-pair" and t.elts and isinstance(t.elts[0], ast.Name):
+                            env[t.elts[0].id] = ORTH
+                            for x in t.elts[1:]:
+                                if isinstance(x, ast.Name):
+                                    env[x.id] = None
+                        elif isinstance(st.value, (ast.Tuple, ast.List)) and len(st.value.elts) == len(t.elts):
+                            vals = [state(x) for x in st.value.elts]
+                            for x, vv in zip(t.elts, vals):
+                                if isinstance(x, ast.Name):
+                                    env[x.id] = vv
+                        else:
+                            for x in t.elts:
+                                if isinstance(x, ast.Name):
+                                    env[x.id] = None
+                elif isinstance(st, ast.Expr):
+                    state(st.value)
+                elif isinstance(st, (ast.If, ast.For, ast.While, ast.With, ast.Try)):
+                    raise AnalysisError("REORTH-EACH-STEP: the power-iteration loop of randomized_range_finder has nested control flow the rule does not follow; cannot decide")
+
+        run(lp.body)
+        # carried from one pass to the next: read in the body before the body writes it
+        exposed, done = set(), set()
+        for st in lp.body:
+            exposed |= {x.id for x in ast.walk(st) if isinstance(x, ast.Name) and isinstance(x.ctx, ast.Load) and x.id not in done}
+            done |= {x.id for x in ast.walk(st) if isinstance(x, ast.Name) and isinstance(x.ctx, ast.Store)}
+        carried = sorted(nm for nm in written & exposed if isinstance(env.get(nm), int))
+        for nm in carried:
+            n += 1
+            ok = env[nm] == ORTH
+            res.instance("REORTH-EACH-STEP", f"randomized_range_finder: `{nm}` carried through the power iteration", sample={"products_since_orthonormalisation_at_end_of_pass": env[nm], "ok": ok and not problems})
+            if not ok:
+                problems.append((lp, f"`{nm}` is handed to the next pass after {env[nm]} product(s) without an orthonormalisation"))
+        for node, why in problems[:2]:
+            ctx.finding("REORTH-EACH-STEP", f, node, f"randomized_range_finder: {why}: in floating point the un-normalised sample collapses onto the dominant singular directions and the sketch loses the small singular values, so randomized_svd is not the best rank-k approximation even when rank + oversampling covers the matrix rank", construct="randomized_range_finder: sample not re-orthonormalised between products")
+    if n == 0:
+        raise AnalysisError("REORTH-EACH-STEP: no sample is carried through the power iteration of randomized_range_finder; cannot decide")
 
 
 # ---------------------------------------------------------------------------------
